@@ -458,6 +458,53 @@ def bag_all_targets(P, R, rule):
                     "is not decided", loc=g.loc())
 
 
+def rename_for_every_kind(P, R, rule):
+    """A schema type is renamed (declared under a temporary local name) iff its name is in the identifier bag — whatever its
+    *kind*: an object, enum or input type named like an identifier of some scalar's TypeScript text shadows that identifier
+    inside the namespace just as a scalar would.  The membership test on the bag must therefore not sit under a condition
+    that selects definitions by kind (an arm or guard of a match over TypeDefinition, an `if let`/`matches!` on one of its
+    variants)."""
+    g = P.fn(PR + "schema_type_printer::context::get_bag_of_identifiers")
+    ml0 = bag_renamer(P, g)
+    ml = inlined(P, ml0, pred=stable_pred(lambda x: x.path != g.path))
+    pv = Prov(ml)
+    KIND = A + "type_system::TypeDefinition::"
+
+    def kinds_in(x):
+        out = set()
+        for y in subnodes(x):
+            d = norm(y.get("ctor_of") or y.get("def") or "") if y.get("k") in ("TupleStruct", "Struct", "PatExpr", "Path") else ""
+            if d.startswith(KIND) and (y.get("k") != "Path"):
+                out.add(d[len(KIND):].split("::")[0])
+        return out
+    nodes = ml.nodes()
+    tests = [i for i, (c, _) in enumerate(nodes) if c.get("k") == "MethodCall" and c["method"] in ("contains", "contains_key", "get", "binary_search")
+             and has_call(pv.deep_atoms(c["recv"]), "context::get_bag_of_identifiers")]
+    if not tests:
+        R.undecided(rule, "rename-every-kind", "no membership test on the identifier bag was recognised in %s" % ml0.path, loc=ml0.loc())
+        return
+    for i in tests:
+        kinds = set()
+        child, p = nodes[i][0], nodes[i][1]
+        while p >= 0:
+            x = nodes[p][0]
+            k = x.get("k")
+            if k == "Arm":
+                kinds |= kinds_in(x["pat"])
+            elif k == "If" and child is not x.get("cond"):
+                kinds |= kinds_in(x["cond"])
+            elif k == "Binary" and x.get("op") in ("&&", "||"):
+                # the other operand of the same condition (`matches!(def, Kind(_)) && bag.contains(..)`)
+                for side in ("l", "r"):
+                    if isinstance(x.get(side), dict) and x[side] is not child:
+                        kinds |= kinds_in(x[side])
+            child, p = x, nodes[p][1]
+        R.check(rule, "rename-every-kind", not kinds, "the bag is consulted for definitions of every kind",
+                "%s consults the identifier bag only for definitions of kind %s: a type of another kind whose name is an identifier of a "
+                "scalar's TypeScript type keeps its bare name and shadows that identifier inside the namespace (the scalar's alias then refers "
+                "to the schema type instead of the global type)" % (ml0.path, sorted(kinds)), loc=ml0.loc())
+
+
 def scalar_map_precedence(P, R, rule):
     """The map scalar name -> TypeScript type of the schema printer options is filled from two sources, the built-in scalars (the
     defaults) and the configured `scalarTypes`; in a map, the entry written *later* wins, and the documented precedence is that a
@@ -637,7 +684,7 @@ def r09b(P, R):
             R.undecided("R09-b", "scalar-precedence", "no `config.or(directive)`-like combination of the two sources of a scalar's TypeScript type was "
                         "recognised in %s" % gs0.path, loc=gs.loc())
 
-    sections(R, "R09-b", ("variables", _part0), ("scalar-target", _part1), ("scalar-table", _part2), ("directive-scalars", _part3), ("clash-bag", lambda: bag_all_targets(P, R, "R09-b")), ("scalar-map", lambda: scalar_map_precedence(P, R, "R09-b")))
+    sections(R, "R09-b", ("variables", _part0), ("scalar-target", _part1), ("scalar-table", _part2), ("directive-scalars", _part3), ("clash-bag", lambda: bag_all_targets(P, R, "R09-b")), ("clash-rename", lambda: rename_for_every_kind(P, R, "R09-b")), ("scalar-map", lambda: scalar_map_precedence(P, R, "R09-b")))
 
 
 def printer_logic(g):
